@@ -187,6 +187,9 @@ class WsgiFE:
 # raw HTTP/1.1 client
 
 
+_SEND_COUNTER = [0]
+
+
 def raw_http(addr, method, target, headers=(), body=None, timeout=30.0, half_close=False):
     """One request on a fresh connection. addr = ('unix', path) | ('tcp', host, port)."""
     if addr[0] == "unix":
@@ -206,8 +209,22 @@ def raw_http(addr, method, target, headers=(), body=None, timeout=30.0, half_clo
         if body is not None and "content-length" not in names:
             lines.append(f"Content-Length: {len(body)}")
         lines.append("Connection: close")
-        data = ("\r\n".join(lines) + "\r\n\r\n").encode("latin-1") + (body or b"")
-        s.sendall(data)
+        head = ("\r\n".join(lines) + "\r\n\r\n").encode("latin-1")
+        _SEND_COUNTER[0] += 1
+        try:
+            if body and len(body) > 64 and _SEND_COUNTER[0] % 3 == 0:
+                # every third request with a body arrives the way real networks deliver it:
+                # headers first, the body later and in several pieces
+                s.sendall(head)
+                time.sleep(0.003)
+                k = max(1, len(body) // 3)
+                for i in range(0, len(body), k):
+                    s.sendall(body[i:i + k])
+                    time.sleep(0.001)
+            else:
+                s.sendall(head + (body or b""))
+        except (BrokenPipeError, ConnectionResetError):
+            pass   # the server answered (and closed) before reading the whole request
         if half_close:
             # wsgiref hands the raw socket to the application as wsgi.input and
             # xandikos reads it without a length: signal end-of-input the way a
